@@ -174,6 +174,7 @@ class Instrs(CallsMixin):
             x = ins['x']
             if x['k'] in ('reg', 'param', 'freevar') and fr is self.cx.top:
                 st.names[idn] = ('addr' if ins.get('addr') else 'reg', x['name'])
+                st.names_seen.add(idn)
 
     def op_Alloc(self, st, fr, b, i, ins):
         types = self.types
